@@ -93,10 +93,12 @@ def sanitize_variable_name(
             original names), so that different names never share an alias.
     """
     # Python's parser NFKC-normalises identifiers, so only names that survive
-    # that normalisation can be used as they are.
+    # that normalisation can be used as they are; keywords cannot be used as
+    # variable names at all.
     if (
         template == "{}"
-        and (name.isidentifier() or keyword.iskeyword(name))
+        and name.isidentifier()
+        and not keyword.iskeyword(name)
         and unicodedata.normalize("NFKC", name) == name
     ):
         return name
@@ -115,8 +117,10 @@ def sanitize_variable_name(
     aliases = {} if aliases is None else aliases
     new_name = template.format(base_name)
     suffix = 0
-    while aliases.get(new_name, name) != name or (
-        new_name in env and new_name not in aliases
+    while (
+        aliases.get(new_name, name) != name
+        or (new_name in env and new_name not in aliases)
+        or keyword.iskeyword(new_name)
     ):
         suffix += 1
         new_name = template.format(f"{base_name}_{suffix}")
